@@ -169,8 +169,15 @@ def reformat_files(
             "Cannot specify output file when processing multiple files (use --inplace instead)"
         )
 
+    seen: set[Path] = set()
     for file_path in files:
         if inplace:
+            # A file named twice is formatted once: a second pass would move the already
+            # formatted file over the backup of the original.
+            resolved = Path(file_path).resolve()
+            if resolved in seen:
+                continue
+            seen.add(resolved)
             # Process each file in-place
             output = None
         else:
